@@ -236,8 +236,16 @@ def rule_keys(prog, rep):
             for s in defs:
                 g = guards_of(s)
                 if U(s.value) == "residue.ffname":
-                    okres &= bool(g) and g[-1][1] is True and "isinstance(residue" in U(g[-1][0]) \
+                    # the state name is used for the parameterised families unconditionally: no fallback to the plain name
+                    okres &= len(g) == 1 and g[-1][1] is True and isinstance(g[-1][0], ast.Call) and U(g[-1][0].func) == "isinstance" \
                         and all(k in U(g[-1][0]) for k in ("Amino", "Nucleic"))
+                else:
+                    # either the else-arm of that test, or an unguarded default that the isinstance arm overrides later
+                    ff = [d for d in defs if U(d.value) == "residue.ffname"]
+                    okres &= (len(g) == 1 and g[-1][1] is False and isinstance(g[-1][0], ast.Call)) or \
+                        (len(g) == 0 and bool(ff) and s.lineno < ff[0].lineno)
+            # no later re-binding of the key
+            okres &= len(defs) == 2
         r.add(f"residue-key|{meth}", okres,
               f"residue key is {vals} (ffname for the parameterised families incl. Amino and Nucleic, plain name otherwise)",
               where)
